@@ -53,6 +53,8 @@ def body_allblocks(mask: int, a: str, k: str, size: int, hasmime: bool, lang: bo
     for i, b in enumerate(BLOCKS):
         if mask & (1 << i):
             ea[b] = texts[b]
+    if size < 0:
+        size = None  # size unknown (directories, generated documents)
     e = rl.entry(cfg, "0", "n", "/x", mimetype=("text/plain" if hasmime else None), size=size, mtime=None, ea=ea)
     if lang:
         e.language = "En_US"
@@ -62,7 +64,7 @@ def body_allblocks(mask: int, a: str, k: str, size: int, hasmime: bool, lang: bo
     want = "+INFO: 0n\t/x\tsrv.example\t70\t+\r\n"
     want += "+ADMIN:\r\n Admin: " + cfg.get("protocols.gopherp.GopherPlusProtocol", "admin") + "\r\n"
     if hasmime:
-        want += "+VIEWS:\r\n text/plain" + (" En_US" if lang else "") + ": <%dk>\r\n" % (size // 1024)
+        want += "+VIEWS:\r\n text/plain" + (" En_US" if lang else "") + ":" + ((" <%dk>" % (size // 1024)) if size is not None else "") + "\r\n"
     for b in BLOCKS:
         if b in ea:
             want += "+" + b + ":\r\n"
@@ -260,11 +262,11 @@ def obligations(tier, seed):
         both = (mask & 3) == 3
         for part in ([None] if (tier == "quick" or not both) else [(hm, lg) for hm in (False, True) for lg in (False, True)]):
             obs.append(Ob(id="C15.2-allblocks[mask=%d%s]" % (mask, "" if part is None else ",mime=%d,lang=%d" % part), body="harness.C15:body_allblocks", sig="mask: int, a: str, k: str, size: int, hasmime: bool, lang: bool",
-                          pre=["mask == %d" % mask, "len(a) <= %d" % n, "len(k) <= %d" % (0 if tier == "quick" else (1 if both else 2)), "all(c in 'a +:' + chr(10) for c in a + k)", "0 <= size <= 10**7"]
+                          pre=["mask == %d" % mask, "len(a) <= %d" % n, "len(k) <= %d" % (0 if tier == "quick" else (1 if both else 2)), "all(c in 'a +:' + chr(10) for c in a + k)", "-1 <= size <= 10**7"]
                               + ([] if part is None else ["hasmime == %s" % part[0], "lang == %s" % part[1], "size == 5000"]),
                           timeout=300 if tier == "quick" else 1200,
                           desc="getallblocks: +INFO, +ADMIN, +VIEWS (MIME type, language, size in k) then one block per attribute in insertion order, lines blank-prefixed",
-                          bounds="attribute subset %d, texts |a| <= %d over {a SPACE + : LF}, %s" % (mask, n, "any size" if part is None else "size 5000 (both texts symbolic; the size varies in the other subsets)"), functions=["GopherPlusProtocol.getallblocks/getblock/getadminblock/getviewsblock"]))
+                          bounds="attribute subset %d, texts |a| <= %d over {a SPACE + : LF}, %s" % (mask, n, "any size or unknown size" if part is None else "size 5000 (both texts symbolic; the size varies in the other subsets)"), functions=["GopherPlusProtocol.getallblocks/getblock/getadminblock/getviewsblock"]))
     obs.append(Ob(id="C15.3b-sidecars-in-archive", body="harness.C15:body_sidecars_nonreal_fallback", sig="mask: int, umn: bool", pre=["0 <= mask <= 15"], timeout=300,
                   desc="file inside a non-real VFS (ZIP-like) while the process-wide file system is a different tree: the entry's attribute blocks come from the sidecars inside that VFS",
                   bounds="16 sidecar subsets x item / directory listing (symbolic)", functions=["handlers.file.FileHandler.getentry", "GopherEntry.populatefromfs/handleeaext"]))
